@@ -31,7 +31,7 @@ STRESSORS = [
     ("token-mutation", 12), ("long-macro-body", 3), ("long-macro-arg", 3), ("obj-arg", 4),
     ("div-zero", 2), ("deep-include", 2), ("repeat-big", 2), ("string-edge", 4), ("scope", 2),
     ("addr-top", 1), ("none", 3), ("unary-chain", 2), ("int-min-div", 1), ("macro-arg-escapes", 2),
-    ("truncate-instr", 12), ("suffix-chain", 3), ("out-write-fail", 6),
+    ("truncate-instr", 12), ("suffix-chain", 3), ("out-write-fail", 6), ("empty-define-run", 2),
 ]
 
 
@@ -417,6 +417,9 @@ class C16(Engine):
                 n = rng.pick([3, 100, 255, 256, 300, 600])
                 sfx = rng.pick([".x", ".", "@", "*", "+", ".w", ".aq", "/", "'", "_"])
                 add_line("  " + mn + sfx * n + rest)
+        elif kind == "empty-define-run":
+            n = rng.pick([10, 1000, 50000, 400000])
+            add_line(".define EMPTYD\n" + rng.pick([".db ", "  ", ".if ", ".org "]) + "EMPTYD " * n + rng.pick(["1", "", "EMPTYD"]))
         elif kind == "out-write-fail":
             # the disk fills up (or the listing cannot be written) while naken_asm writes: every byte offset class,
             # every output type, images small enough to sit in one stdio buffer and large enough to need several
